@@ -35,7 +35,21 @@ fn valid_query() -> Vec<(String, String)> {
 
 pub fn gen_bad(rng: &mut Rng) -> Bad {
     let big = "18446744073709551616";
-    match rng.below(9) {
+    match rng.below(10) {
+        // ---- a query whose fields are all optional: dropping or ignoring the query
+        // string would turn these into valid requests
+        9 => {
+            let (v, class) = *rng.pick(&[
+                ("uid=abc", "optional-u64-non-numeric"),
+                ("uid=-1", "optional-u64-negative"),
+                ("uid=18446744073709551616", "optional-u64-out-of-range"),
+                ("uid=1.5", "optional-u64-fractional"),
+                ("uid=1&uid=2", "optional-field-duplicate"),
+                ("uid=0x10", "optional-u64-hex"),
+            ]);
+            let t = format!("/p/x{}/y?{v}", rng.usize(100));
+            Bad { position: "query", class: class.into(), req: Req::new("PUT", &t), raw: None, half_close: false }
+        }
         // ---- path variables that are not UTF-8 after percent-decoding
         7 => {
             let bad = *rng.pick(&["%FF", "caf%C3", "%C0%AF", "%ED%A0%80", "a%80b", "%fe%ff"]);
@@ -91,8 +105,22 @@ pub fn gen_bad(rng: &mut Rng) -> Bad {
                 _ => (4, "purple", "enum-unknown-variant"),
             };
             vals[idx] = bad.to_string();
+            let mut class = class.to_string();
+            if rng.chance(1, 4) {
+                // a long ill-typed value with multi-byte characters at every offset class:
+                // whatever the error path does with the echoed value (truncate, quote, log)
+                // must cope with character boundaries
+                let ch = *rng.pick(&["\u{e9}", "\u{20ac}", "\u{1f980}"]);
+                let prefix = rng.usize(140);
+                let v: String = "a".repeat(prefix) + &ch.repeat(1 + rng.usize(40));
+                vals[idx] = crate::client::pct_encode_with(v.as_bytes(), crate::client::must_encode_in_segment, || 1)
+                    .into_iter()
+                    .map(|b| b as char)
+                    .collect();
+                class = format!("{}-long-non-ascii", class.split('-').next().unwrap_or("x"));
+            }
             let t = format!("/pn/{}", vals.join("/"));
-            Bad { position: "path", class: class.into(), req: Req::new("GET", &t), raw: None, half_close: false }
+            Bad { position: "path", class, req: Req::new("GET", &t), raw: None, half_close: false }
         }
         // ---- query fields of QAll
         1 | 2 => {
@@ -381,7 +409,17 @@ pub fn run(seed: u64, threads: usize, per_thread: usize) -> Report {
                         let mut bad = gen_bad(&mut rng);
                         let uid = next_uid();
                         bad.req = bad.req.uid(uid);
-                        let framing = if bad.raw.is_some() {
+                        // the same request with its target in absolute-form (RFC 9112 3.2.2: a
+                        // server MUST accept it), for targets that are plain text
+                        let absolute = bad.raw.is_none() && matches!(bad.position, "query" | "path") && bad.req.target.is_ascii() && rng.chance(1, 3);
+                        if absolute {
+                            let mut t = b"http://vmon.test".to_vec();
+                            t.extend_from_slice(&bad.req.target);
+                            bad.req.target = t;
+                        }
+                        let framing = if absolute {
+                            "absolute-form"
+                        } else if bad.raw.is_some() {
                             "raw"
                         } else if !bad.req.body.is_empty() && rng.chance(1, 3) {
                             bad.req.chunked = Some(vec![1 + rng.usize(40)]);
